@@ -845,7 +845,14 @@ pub fn gen_op(m: &Model, p: &Profile, seed: &OpSeed) -> Option<Op> {
             }
         }
         K::ModeUser => {
-            let target = if s.chance(80) { nick.clone() } else { nick_pick(m, p, &mut s, true) };
+            let target = if s.chance(6) {
+                // the own nick in another letter case is somebody else (mostly nobody)
+                nick.chars().map(|c| if c.is_ascii_lowercase() { c.to_ascii_uppercase() } else { c.to_ascii_lowercase() }).collect()
+            } else if s.chance(80) {
+                nick.clone()
+            } else {
+                nick_pick(m, p, &mut s, true)
+            };
             if s.chance(12) {
                 format!("MODE {}", target)
             } else {
